@@ -86,11 +86,18 @@ def vec_allocs(b, facts):
     return out
 
 
+MODE = ["empty"]
+
+
 def hypotheses(rels, vec_alloc=()):
-    """H1-H3 instantiated for the atoms that occur in `rels`"""
+    """H1-H3 instantiated for the atoms that occur in `rels`.  MODE "empty": len == 0 and n <= A (C08, last sentence of C18).
+    MODE "recycle" (C18): the dead prefix in front of the view is at least as long as the live bytes (off >= len) and
+    len + n <= A - the situation a recycling loop is in whenever its buffer runs out after most of it has been consumed."""
     base = ("deref", ("param", 1))
     ln, cap, add = ("field", base, "len"), ("field", base, "cap"), ("param", 2)
-    hyp = [("eq", ln, ("const", 0))]
+    recycle = MODE[0] == "recycle"
+    hyp = [] if recycle else [("eq", ln, ("const", 0))]
+    offs = set()
     allocs = []
     uniq = set()
     loads = set()
@@ -111,14 +118,21 @@ def hypotheses(rels, vec_alloc=()):
                     loads.add(canon(x))
                 if nm == "get_vec_pos" and mentions_self(x):
                     vecpos.add(canon(x))
+                if nm == "offset_from" and mentions_self(x):
+                    offs.add(canon(x))
     if vec_alloc:
         allocs.extend(vec_alloc)
     else:
         for v in vecpos or {("call", "bytes_mut::BytesMut::get_vec_pos", (("param", 1),))}:
             allocs.append(("bin", "Add", cap, v))
     for a in allocs:
-        hyp.append(("le", add, a))
+        hyp.append(("le", ("bin", "Add", ln, add), a) if recycle else ("le", add, a))
         hyp.append(("le", a, ("const", ISIZE_MAX)))
+        if recycle and isinstance(a, tuple) and a[0] == "bin" and a[1] == "Add" and a[2] == cap:
+            offs.add(a[3])
+    if recycle:
+        for o in offs | vecpos:
+            hyp.append(("le", ln, o))
     for u in uniq:
         hyp.append(("truth", u, 1))
     for l in loads:
@@ -176,6 +190,23 @@ def alloc_blocks(b):
     return out
 
 
+def who():
+    return "a sole owner whose dead prefix covers its live bytes" if MODE[0] == "recycle" else "an empty sole owner"
+
+
+def who_long():
+    return ("a BytesMut that is alone on its allocation and has at least as many consumed bytes in front of its view as live bytes in it (off >= len)"
+            if MODE[0] == "recycle" else "an empty BytesMut that is alone on its allocation")
+
+
+def fits():
+    return "len + n <= allocation size" if MODE[0] == "recycle" else "n <= allocation size"
+
+
+def tag():
+    return " (recycling)" if MODE[0] == "recycle" else ""
+
+
 def judge(facts, b, bid, want_false=True, want_alloc=True, ctx_false=(), ctx_alloc=()):
     """-> [(key, ok, text, extra)]; ctx_* = relations that hold whenever the helper is entered from try_reclaim / reserve"""
     out = []
@@ -209,12 +240,12 @@ def judge(facts, b, bid, want_false=True, want_alloc=True, ctx_false=(), ctx_all
                 n_ref += 1
                 continue
             open_ = first_open(rels, hyp)
-            out.append(("%s|returns false for an empty sole owner|%s" % (bid, fmt_rel(open_)), False,
-                        "try_reclaim(n) can return false for an empty BytesMut that is alone on its allocation although n <= allocation size: "
-                        "the path through `%s` is not excluded by len == 0, uniqueness and n <= allocation size" % fmt_rel(open_),
+            out.append(("%s|returns false for %s|%s" % (bid, who(), fmt_rel(open_)), False,
+                        "try_reclaim(n) can return false for %s although %s: "
+                        "the path through `%s` is not excluded by the hypotheses" % (who_long(), fits(), fmt_rel(open_)),
                         {"path": "bb" + "->bb".join(str(x) for x in path), "relations": [fmt_rel(r) for r in rels]}))
-        out.append(("%s|false paths" % bid, n > 0, "%d paths return false, %d of them excluded for an empty sole owner with n <= allocation size "
-                    "(linear-inequality domain, one state per path)" % (n, n_ref) if n else "no path returns false: nothing to decide (the helper has been reshaped beyond recognition)", None))
+        out.append(("%s|false paths%s" % (bid, tag()), n > 0, "%d paths return false, %d of them excluded for %s "
+                    "(linear-inequality domain, one state per path)" % (n, n_ref, who()) if n else "no path returns false: nothing to decide (the helper has been reshaped beyond recognition)", None))
     if want_alloc:
         sites = alloc_blocks(b)
         n_paths = n_ref = 0
@@ -229,18 +260,40 @@ def judge(facts, b, bid, want_false=True, want_alloc=True, ctx_false=(), ctx_all
                     continue
                 bad = (path, rels, first_open(rels, hyp))
                 break
-            key = "%s|allocates for an empty sole owner|%s" % (bid, label)
+            key = "%s|allocates for %s|%s" % (bid, who(), label)
             if bad:
                 out.append((key + "|" + fmt_rel(bad[2]), False,
-                            "reserve(n) can reach %s for an empty BytesMut that is alone on its allocation although n <= allocation size: the path through `%s` is not excluded"
-                            % (label, fmt_rel(bad[2])), {"path": "bb" + "->bb".join(str(x) for x in bad[0]), "relations": [fmt_rel(r) for r in bad[1]]}))
+                            "reserve(n) can reach %s for %s although %s: the path through `%s` is not excluded"
+                            % (label, who_long(), fits(), fmt_rel(bad[2])), {"path": "bb" + "->bb".join(str(x) for x in bad[0]), "relations": [fmt_rel(r) for r in bad[1]]}))
             else:
-                out.append((key, True, "every path to this %s is excluded for an empty sole owner with n <= allocation size" % label, None))
-        out.append(("%s|allocation sites" % bid, len(sites) > 0, "%d allocation sites, %d paths to them, %d excluded" % (len(sites), n_paths, n_ref), None))
+                out.append((key, True, "every path to this %s is excluded for %s" % (label, who()), None))
+        out.append(("%s|allocation sites%s" % (bid, tag()), len(sites) > 0, "%d allocation sites, %d paths to them, %d excluded" % (len(sites), n_paths, n_ref), None))
     return out
 
 
-def run(facts):
+WANTS_PROP = True
+
+
+def run(facts, prop=None):
+    res = run_mode(facts, "empty")
+    if prop == "C18":
+        r2 = run_mode(facts, "recycle")
+        res.instances += r2.instances
+        res.violations += r2.violations
+        res.nontrivial += r2.nontrivial
+        res.decides += "; the same for a sole owner whose consumed prefix is at least as long as its live bytes and len + n <= allocation size (the recycling case)"
+    return res
+
+
+def run_mode(facts, mode):
+    MODE[0] = mode
+    try:
+        return run_one(facts)
+    finally:
+        MODE[0] = "empty"
+
+
+def run_one(facts):
     res = Result("A15", "an empty BytesMut that is the only handle on its allocation can take all of it back: try_reclaim(n) is true and reserve(n) "
                         "does not allocate for every n up to the allocation size (linear-inequality domain over all paths of the reservation helper)")
     b0 = reserve_helper(facts)
@@ -290,9 +343,9 @@ def run(facts):
             res.ok(key, loc, text, nontrivial=True)
         else:
             res.bad(key, loc, text, **(extra or {}))
-        if key.endswith("|false paths"):
+        if "|false paths" in key:
             n_false = int(text.split()[0]) if text[0].isdigit() else 0
-        if key.endswith("|allocation sites"):
+        if "|allocation sites" in key:
             n_sites = int(text.split()[0]) if text[0].isdigit() else 0
     res.floor("false-returning paths", n_false, 3)
     res.floor("allocation sites", n_sites, 2)
